@@ -48,7 +48,7 @@ Hits(s, px, py) == {i \in 1..Len(s.cells) : s.cells[i][1] = px /\ s.cells[i][2] 
 OwnCell(s, px, py) ==
   LET hits == Hits(s, px, py)
   IN IF hits = {} THEN [g |-> BlankG, w |-> 1, fg |-> s.fg]
-     ELSE [g |-> s.cells[SetMax(hits)][3], w |-> s.cells[SetMax(hits)][4], fg |-> s.fg]
+     ELSE LET m == s.cells[SetMax(hits)] IN [g |-> m[3], w |-> m[4], fg |-> s.fg]
 
 (* Which surface shows at point (px,py) of surface s, (px,py) being inside  *)
 (* s: the topmost child covering the point, recursively (a child covers its *)
